@@ -123,8 +123,8 @@ def do_run(cfg, resume_from=None, fail_at=None, budget_s=60, vid0=0, keep_payloa
         sampler.default_checkpoint_callback = spy
     if resume_from is not None:
         sk["resume_from"] = resume_from
-    old = signal.signal(signal.SIGALRM, _alarm)
-    signal.setitimer(signal.ITIMER_REAL, budget_s, 0.5)   # re-fires: a handler exception can be swallowed (e.g. inside logging)
+    old = signal.signal(signal.SIGPROF, _alarm)
+    signal.setitimer(signal.ITIMER_PROF, budget_s, 0.5)   # CPU time of this process (a loaded machine must not look like non-termination); re-fires: a handler exception can be swallowed (e.g. inside logging)
     try:
         if kind == "base":
             r.result = sd.base_sample(sampler, N, rng=rng, sampler_kwargs={"n_steps": cfg["mcmc_steps"]}, **sk)
@@ -137,8 +137,8 @@ def do_run(cfg, resume_from=None, fail_at=None, budget_s=60, vid0=0, keep_payloa
     except Exception as e:
         r.error = (type(e).__name__, str(e), traceback.format_exc()[-1500:])
     finally:
-        signal.setitimer(signal.ITIMER_REAL, 0)
-        signal.signal(signal.SIGALRM, old)
+        signal.setitimer(signal.ITIMER_PROF, 0)
+        signal.signal(signal.SIGPROF, old)
         rec.uninstall()
     r.events = rec.events
     r.history = sampler.history
@@ -327,8 +327,8 @@ def aspire_file_run(cfg, path, fail_at=None, resume=False, budget_s=60, every=1,
     sk = dict(cfg["sample_kwargs"])
     sk.pop("beta_tolerance", None)
     sk.pop("store_sample_history", None)
-    old = signal.signal(signal.SIGALRM, _alarm)
-    signal.setitimer(signal.ITIMER_REAL, budget_s, 0.5)
+    old = signal.signal(signal.SIGPROF, _alarm)
+    signal.setitimer(signal.ITIMER_PROF, budget_s, 0.5)
     try:
         if resume:
             a = Aspire.resume_from_file(path, log_likelihood=target.log_likelihood, log_prior=target.log_prior)
@@ -348,8 +348,8 @@ def aspire_file_run(cfg, path, fail_at=None, resume=False, budget_s=60, every=1,
     except Exception as e:
         r.error = (type(e).__name__, str(e), traceback.format_exc()[-1500:])
     finally:
-        signal.setitimer(signal.ITIMER_REAL, 0)
-        signal.signal(signal.SIGALRM, old)
+        signal.setitimer(signal.ITIMER_PROF, 0)
+        signal.signal(signal.SIGPROF, old)
     r.sampler = getattr(getattr(r, "aspire", None), "sampler", None)
     if r.history is None and r.sampler is not None:
         r.history = r.sampler.history
